@@ -94,6 +94,15 @@ def witness_inputs(rng):
         rows.append(R(s, "2022-03-%02d" % (4 + k), "Buy", 10, 10, af="(R)"))
         rows.append(R(s, "2022-04-%02d" % (4 + k), "Buy", 1, 10, af="Spouse"))
     w.append(("registered-only-securities", {"rows": rows, "inits": {}}, "approot.rs note order"))
+    # approot.rs write_render_result: several securities WITH ERRORS (over-sale, return of capital above the
+    # cost base, sale by an affiliate holding nothing) next to healthy ones: the closing list of securities
+    # with errors, the error sections and the tables must come in one order
+    rows = [R("GOOD", "2022-01-03", "Buy", 5, 10), R("GOOD", "2022-06-03", "Sell", 2, 12),
+            R("OVER", "2022-01-04", "Buy", 1, 10), R("OVER", "2022-02-04", "Sell", 3, 10),
+            R("ROCX", "2022-01-05", "Buy", 1, 1), R("ROCX", "2022-02-05", "RoC", aps=5),
+            R("NOBODY", "2022-01-06", "Buy", 2, 10), R("NOBODY", "2022-02-06", "Sell", 1, 10, af="Spouse"),
+            R("ALSO", "2022-01-07", "Sell", 1, 10), R("FINE", "2022-01-08", "Buy", 1, 10)]
+    w.append(("several-securities-with-errors", {"rows": rows, "inits": {}}, "approot.rs list of securities with errors"))
     # decimal sums whose last digit depends on the order: gains of three
     # securities, costs of three securities settling on one day / carried
     trs = sensitive_triples(rng, 8)
